@@ -23,6 +23,7 @@ const (
 	c10KeyPDFNestedDict    = "C10-extractor.PDF-pdfcpu-hang-nested-dict"
 	c10KeyM3U8Memory       = "C10-extractor.M3U8-m3u8-memory-blowup"
 	c10KeyPDFHugeLength    = "C10-extractor.PDF-pdfcpu-oom-huge-length"
+	c10KeyPDFIntOverflow   = "C10-extractor.PDF-pdfcpu-hang-int-overflow"
 	c10KeyHTMLNestedScript = "C10-extractor.HTMLAssets-regexp-hang-nested-scripts"
 	c10KeyPDFPanic         = "C10-extractor.PDF-pdfcpu" // recoverable panics inside pdfcpu (keyed automatically)
 	c10KeyM3U8Panic        = "C10-extractor.M3U8-m3u8"  // recoverable panics inside grafov/m3u8 (keyed automatically)
@@ -134,11 +135,18 @@ func c10M3U8AttachCost(b []byte) int64 {
 	return cost
 }
 
-var c10HugeNumRe = regexp.MustCompile(`(?:^|[\s\[(/])[+]?0*[1-9]\d{9,}(?:[\s\]/>)]|$)`)
+var (
+	c10HugeNumRe     = regexp.MustCompile(`(?:^|[\s\[(/\]>])[+-]?0*[1-9]\d{9,}`)
+	c10OverflowNumRe = regexp.MustCompile(`(?:^|[\s\[(/\]>])[+-]?0*[1-9]\d{18,}`)
+)
 
 // c10PDFHugeNumber: a numeric token of 10 or more significant digits (stream /Length, directly or through a
 // reference): pdfcpu allocates what the document declares.
 func c10PDFHugeNumber(b []byte) bool { return c10HugeNumRe.Match(b) }
+
+// c10PDFOverflowNumber: a numeric token of 19 or more significant digits does not fit an int: pdfcpu's array parser
+// stops making progress on "N G [" with such an N.
+func c10PDFOverflowNumber(b []byte) bool { return c10OverflowNumRe.Match(b) }
 
 // c10HTMLNestedScripts: <script> elements nest only inside foreign content (<svg>, <math>); HTMLAssets then runs the
 // strict link regex over the outer HTML of every one of them (quadratic, ~0.4 MB/s).
@@ -156,9 +164,12 @@ func c10FatalClass(c c10Case) string {
 	if c.Target != "pdf" && c.Target != "m3u8" && veriflib.FindingOpen(c10KeyHTMLNestedScript) && c10HTMLNestedScripts(c.Body) {
 		return c10KeyHTMLNestedScript
 	}
-	cycle, nested, huge := veriflib.FindingOpen(c10KeyPDFPageTreeCycle), veriflib.FindingOpen(c10KeyPDFNestedDict), veriflib.FindingOpen(c10KeyPDFHugeLength)
-	if !cycle && !nested && !huge || c.Target != "pdf" && c.Target != "chain" || !bytes.Contains(c.Body[:min(len(c.Body), 2048)], []byte("%PDF-")) {
+	cycle, nested, huge, ovf := veriflib.FindingOpen(c10KeyPDFPageTreeCycle), veriflib.FindingOpen(c10KeyPDFNestedDict), veriflib.FindingOpen(c10KeyPDFHugeLength), veriflib.FindingOpen(c10KeyPDFIntOverflow)
+	if !cycle && !nested && !huge && !ovf || c.Target != "pdf" && c.Target != "chain" || !bytes.Contains(c.Body[:min(len(c.Body), 2048)], []byte("%PDF-")) {
 		return ""
+	}
+	if ovf && c10PDFOverflowNumber(c.Body) {
+		return c10KeyPDFIntOverflow
 	}
 	if huge && c10PDFHugeNumber(c.Body) {
 		return c10KeyPDFHugeLength
@@ -284,4 +295,21 @@ func TestVerifKF_C10_extractor_PDF_pdfcpu_oom_huge_length(t *testing.T) {
 			"fatal memory exhaustion (key C10-oom-extractor_PDF_pdfcpu): the child process running the case was ended by the Go runtime inside makeslice <- pdfcpu.readStreamContent <- ... <- extractor.PDF (allocation of the declared stream /Length)")
 	}
 	t.Fatalf("harness: child process failed differently: %v\n%.2000s", err, strings.ReplaceAll(out, "out of memory", "o-o-m"))
+}
+
+// TestVerifKF_C10_extractor_PDF_pdfcpu_hang_int_overflow: the 62-byte body "%PDF-1.4\n1 0 obj[9999999999999999999 0 [endobj\nstartxref5%%EOF"
+// (an object number that does not fit an int, inside an array) keeps pdfcpu's object parser busy for ever.
+// Confirmed with a 2 s first deadline and three 20 s re-runs (same rule, smaller constants).
+func TestVerifKF_C10_extractor_PDF_pdfcpu_hang_int_overflow(t *testing.T) {
+	defer veriflib.Flush()
+	defer c10JournalEnd("")
+	body := c10KFFile(t, "pdf/kf-int-overflow-hang.pdf")
+	if !c10PDFOverflowNumber(body) {
+		t.Fatalf("harness: the pre-execution filter does not recognise the minimal input of %s", c10KeyPDFIntOverflow)
+	}
+	if os.Getenv("VERIF_C10_BUDGET_MS") == "" {
+		os.Setenv("VERIF_C10_BUDGET_MS", "2000")
+		defer os.Unsetenv("VERIF_C10_BUDGET_MS")
+	}
+	propC10(t, c10Case{Target: "pdf", Body: body, Note: "known finding " + c10KeyPDFIntOverflow})
 }
